@@ -342,7 +342,15 @@ func (c *VirtualTable) Begin() error {
 		c.module.sc.txFixedWriteTime = true
 		c.module.sc.ResetContext()
 	}
-	return toSqlite(c.common.Begin(c.module.sc.ctx))
+	err := c.common.Begin(c.module.sc.ctx)
+	if err != nil && c.module.sc.txFixedWriteTime {
+		// no transaction was started, so neither Commit nor Rollback will
+		// come to take the transaction's write time off the connection
+		c.module.sc.writeTime = time.Time{}
+		c.module.sc.txFixedWriteTime = false
+		c.module.sc.ResetContext()
+	}
+	return toSqlite(err)
 }
 
 func (c *VirtualTable) Commit() error {
